@@ -63,6 +63,12 @@ def gen_problem(g, rng, M, cv):
         for _ in range(rng.choice([0, 1, 1, 2, 3])):
             l, lt = convex_tree(rng.randint(0, 2))
             if l is None: continue
+            if rng.random() < 0.3:
+                # vector affine part plus the maximum over the components of a vector: every pair (i, k) of components is constrained
+                nn = rng.choice([2, 3])
+                a1, t1 = affine_tree(1, nn); a2, t2 = affine_tree(1, rng.choice([nn, nn, 2, 3]))
+                if a1 is not None and a2 is not None and len(a1) == nn and len(a2) > 1:
+                    l, lt = a1 + M.max(a2), 'add %s maxv %s' % (t1, t2)
             n = len(l)
             if rng.random() < 0.6:
                 vals = [float(rng.randint(-1, 6)) for _ in range(n if rng.random() < 0.7 else 1)]
